@@ -101,6 +101,8 @@ type fontEntry struct {
 	index   int
 	face    *font.Face
 	hb      *hbref.Face // for triage only
+	syll  []*syllScript // syllabic scripts the font covers (syll_test.go)
+	units [][]rune      // pieces of the texts upstream's tests shape with this font
 	// the reference reads the cmap differently: it was given the port's mapping (see refFace)
 	refCmapOverridden bool
 	feats   []string
@@ -165,6 +167,10 @@ func loadFont(rel string, index int) (*fontEntry, error) {
 	}
 	sort.Strings(fe.feats)
 	fe.pool = textgen.FontRunes(fe.face.Font, 400)
+	if index == 0 {
+		fe.units = upstreamUnits(upstreamFor(rel))
+	}
+	fe.syll = syllScriptsFor(func(r rune) bool { _, ok := fe.face.NominalGlyph(r); return ok })
 	for _, name := range textgen.ScriptNames {
 		al := textgen.Alphabets[name]
 		n := 0
@@ -277,8 +283,13 @@ func pickFonts(n int) []*fontEntry {
 	names := []string{"layout-large", "layout-large", "layout-medium", "layout-large", "layout-large", "layout-medium", "layout-small",
 		"layout-large", "layout-large", "layout-medium", "kern", "layout-large", "layout-small", "plain", "cmap-fallback"}
 	lists := map[string][]ref{}
-	for k, l := range strata {
-		l = append([]ref(nil), l...)
+	keys := make([]string, 0, len(strata))
+	for k := range strata {
+		keys = append(keys, k)
+	}
+	sort.Strings(keys) // (map order would make the sample differ from run to run for one seed)
+	for _, k := range keys {
+		l := append([]ref(nil), strata[k]...)
 		for j := len(l) - 1; j > 0; j-- {
 			m := rnd.Intn(j + 1)
 			l[j], l[m] = l[m], l[j]
@@ -718,6 +729,7 @@ func checkCase(t ev.TB, fe *fontEntry, c *Case, survey func(check string, f fail
 			labels = append(labels, "ltr_item_rtl_script_letters_and_digit_with_mark")
 		}
 	}
+	labels = append(labels, syllLabels(text[itemStart:itemEnd])...)
 	n := len(whole)
 
 	fail := func(check string, pieces []G, cuts []int, format string, args ...any) {
@@ -997,7 +1009,29 @@ func genCase(t *rapid.T, fonts []*fontEntry) (*fontEntry, *Case) {
 		opts.Scripts = fe.scripts
 	}
 	var text []rune
-	if rapid.IntRange(0, 9).Draw(t, "textMode") < 8 {
+	var syll *syllScript
+	// low-frequency stratum: long homogeneous texts of one syllabic script (syll_test.go); fonts
+	// that cover such a script or for which upstream has test texts get it in 1 of 10 cases (syllables built from the script's classes, or drawn from pieces of those texts), the others in 1 of 60 (on .notdef)
+	long := false
+	var units [][]rune
+	if (len(fe.syll) > 0 || len(fe.units) > 0) && rapid.IntRange(0, 9).Draw(t, "syllableText") == 0 {
+		long = true
+		if len(fe.units) > 0 && (len(fe.syll) == 0 || rapid.Bool().Draw(t, "upstreamUnits")) {
+			units = fe.units
+		}
+		if len(fe.syll) > 0 {
+			syll = rapid.SampledFrom(fe.syll).Draw(t, "syllableScript")
+		}
+	} else if len(fe.syll) == 0 && len(fe.units) == 0 && rapid.IntRange(0, 59).Draw(t, "syllableTextAny") == 0 {
+		long = true
+		syll = rapid.SampledFrom(syllScriptsAny()).Draw(t, "syllableScriptAny")
+	}
+	if long {
+		text, _ = genSyllableText(t, syll, units, ev.Scale(1, 2))
+		if units != nil {
+			syll = nil // script and direction: the ordinary draws
+		}
+	} else if rapid.IntRange(0, 9).Draw(t, "textMode") < 8 {
 		text = genWords(t, fe, opts.MaxLen)
 	} else {
 		text = textgen.Text(t, opts)
@@ -1007,13 +1041,20 @@ func genCase(t *rapid.T, fonts []*fontEntry) (*fontEntry, *Case) {
 		c.Text[i] = int(r)
 	}
 	c.Offset, c.Length = 0, len(text)
-	if len(text) > 2 && rapid.IntRange(0, 5).Draw(t, "subrun") == 0 {
+	if len(text) > 2 && !long && rapid.IntRange(0, 5).Draw(t, "subrun") == 0 {
 		c.Offset = rapid.IntRange(0, len(text)-1).Draw(t, "itemOffset")
 		c.Length = rapid.IntRange(1, len(text)-c.Offset).Draw(t, "itemLength")
 	}
 	c.Dir = rapid.SampledFrom([]int{0, 0, 0, 0, 0, 4, 5, 5, 6, 7}).Draw(t, "direction")
-	switch rapid.IntRange(0, 9).Draw(t, "scriptMode") {
-	case 0, 1, 2, 3, 4, 5:
+	switch sm := rapid.IntRange(0, 9).Draw(t, "scriptMode"); {
+	case syll != nil:
+		if sm < 5 {
+			c.Script = syll.tag
+		}
+		if c.Dir != 0 && sm%2 == 0 {
+			c.Dir = 0
+		}
+	case sm <= 5:
 	default:
 		if len(fe.scripts) > 0 {
 			c.Script = alphabetScript[rapid.SampledFrom(fe.scripts).Draw(t, "ownScript")][0]
